@@ -106,7 +106,11 @@ def check(model: Model, report: Report) -> None:
         report.ok("R14.5", "__init__", "DEFAULT_ENV = JSONPathEnvironment()")
     for name in ("compile", "finditer", "find", "find_one"):
         e = pkg.assigns.get(name)
-        if not (isinstance(e, ast.Attribute) and isinstance(e.value, ast.Name) and e.value.id == "DEFAULT_ENV" and e.attr == name):
+        if e is None and name in pkg.functions:
+            from .c15 import _check_module_wrapper
+
+            _check_module_wrapper(model, report, "R14.5", pkg.functions[name], name)
+        elif not (isinstance(e, ast.Attribute) and isinstance(e.value, ast.Name) and e.value.id == "DEFAULT_ENV" and e.attr == name):
             report.fail("R14.5", "__init__", f"alias:{name}", f"module-level {name} is {ast.unparse(e) if e else None}, expected DEFAULT_ENV.{name}")
         else:
             report.ok("R14.5", "__init__", f"{name} = DEFAULT_ENV.{name}")
